@@ -16,6 +16,7 @@ func init() {
 			"R-C18-2: gate order (shared with C03 R-C03-3): no credential function is reachable from the rejecting edge of the blacklist/ban/rate gates. " +
 			"R-C18-3: in RecordFailure the ban calls are dominated by the threshold comparisons (total >= PermanentBanAt with duration 0; recent >= MaxFailures with BanDuration), the counts are read under the failures lock after pruning; every comparison of a ban/blacklist expiry with the clock is conjoined with the not-zero test (permanent entries never expire). " +
 			"R-C18-4: a removal of a ban/blacklist entry that is triggered by an expiry observation re-tests expiry inside the critical section that deletes (directly, or in the function it is handed to). " +
+			"R-C18-6: the rate limiter installs the token bucket of a key only after a lookup under the write lock found none (one bucket per address). " +
 			"R-C18-5: every access to failures, bannedIPs, blacklist, whitelist and the token-bucket state holds the corresponding mutex. " +
 			"Decides these necessary conditions; does not decide window/refill arithmetic over timings.",
 		Run: runC18,
@@ -367,6 +368,43 @@ func runC18(r *Report) {
 		}
 	}
 	r.Floor("R-C18-4", 4, "expiry-triggered removals")
+
+	// ---- R-C18-6 token bucket of a key is created once ---------------------------------------
+	if al := r.need("R-C18-6", secPkg, "RateLimiter.allow"); al != nil {
+		n := 0
+		Instrs(al, func(in ssa.Instruction) {
+			mu, ok := in.(*ssa.MapUpdate)
+			if !ok || originSummary(mu.Map) != "param:buckets" {
+				return
+			}
+			n++
+			var k ssa.Instruction
+			Instrs(al, func(l ssa.Instruction) {
+				if lc, ok := l.(*ssa.Call); ok {
+					if id, op, ok := lockOp(lc); ok && op == "Lock" && id == "mu" && Before(l, in) && (k == nil || Before(k, l)) {
+						k = l
+					}
+				}
+			})
+			ok2 := false
+			if k != nil {
+				for _, ft := range Facts(in.Block()) {
+					ex, isEx := ft.Cond.(*ssa.Extract)
+					if !isEx || ex.Index != 1 || ft.Pol {
+						continue
+					}
+					lk, isLk := ex.Tuple.(*ssa.Lookup)
+					if isLk && originSummary(lk.X) == "param:buckets" && Before(k, lk) {
+						ok2 = true
+					}
+				}
+			}
+			r.Ob("R-C18-6", in.Pos(), ok2, "a token bucket is installed only if a lookup made after taking the write lock found none (otherwise concurrent first requests of one address each get a private full bucket and the burst limit is exceeded)", "RateLimiter.allow", "bucket-created-once")
+		})
+		if n != 1 {
+			r.Fail("R-C18-6", al.Pos(), fmt.Sprintf("expected one bucket installation in allow, found %d", n), "RateLimiter.allow", "anchor")
+		}
+	}
 
 	// ---- R-C18-5 guarded-by --------------------------------------------------------
 	guardedBy(r, "R-C18-5", secPkg, "BruteForceProtector", "failures", "mu", map[string]string{"NewBruteForceProtector": "constructor"})
